@@ -494,7 +494,7 @@ pub fn run_serial(seed: u64, switch_pm: u64, coarse: bool, progs: Vec<Box<dyn Fn
             if sh.steps != last_steps {
                 last_steps = sh.steps;
                 last_change = now;
-            } else if now - last_change > 20_000_000_000 || now - t0 > 120_000_000_000 {
+            } else if now - last_change > 5_000_000_000 || now - t0 > 120_000_000_000 {
                 stuck = true;
                 break;
             }
